@@ -502,6 +502,44 @@ def timeout_flow(rep, ex: Explorer):
                 rep.check(reraises, "TIMEOUT.flow", where, f"handler for {'/'.join(types)}", "a handler that can catch an expiry re-raises it",
                           extracted="re-raises" if reraises else "swallows", required="re-raise", function=f"{fi.path}:{fi.qualname[len(fi.module) + 1:]}")
     rep.floor("handlers able to catch TimeoutError", n_handlers, 3)
+    # a `return` (or a `break` / `continue` that leaves the block) inside a `finally` discards whatever exception is in flight,
+    # an expiry included, without any handler being involved
+    n_fin = 0
+    for fi in funcs:
+        for t in ast.walk(fi.node):
+            if not isinstance(t, ast.Try) or not t.finalbody:
+                continue
+            n_fin += 1
+            inner_calls = set()
+            for st in t.body + [x for h in t.handlers for x in h.body] + t.orelse:
+                inner_calls |= called_names(st)
+            reaches = bool(inner_calls & may) or any(isinstance(n, ast.Raise) and n.exc is not None and "TimeoutError" in ast.unparse(n.exc) for st in t.body for n in ast.walk(st))
+
+            def leaves(stmts, in_loop=False):
+                for st in stmts:
+                    if isinstance(st, ast.Return):
+                        return st
+                    if isinstance(st, (ast.Break, ast.Continue)) and not in_loop:
+                        return st
+                    if isinstance(st, (ast.FunctionDef, ast.AsyncFunctionDef, ast.ClassDef)):
+                        continue
+                    for fld in ("body", "orelse", "finalbody"):
+                        sub = getattr(st, fld, None)
+                        if isinstance(sub, list):
+                            r = leaves(sub, in_loop or (isinstance(st, (ast.For, ast.While)) and fld == "body"))
+                            if r is not None:
+                                return r
+                    for h in getattr(st, "handlers", []):
+                        r = leaves(h.body, in_loop)
+                        if r is not None:
+                            return r
+                return None
+
+            bad = leaves(t.finalbody) if reaches else None
+            where = f"{fi.path}:{fi.qualname[len(fi.module) + 1:]}:{t.lineno}"
+            rep.check(bad is None, "TIMEOUT.flow", where, "finally block", "a finally block under which an expiry can be raised lets it pass (no return / break / continue that discards the exception in flight)",
+                      extracted=(f"`{ast.unparse(bad)[:60]}` at line {bad.lineno} inside the finally block" if bad is not None else "falls through"), required="falls through",
+                      function=f"{fi.path}:{fi.qualname[len(fi.module) + 1:]}")
     # the converting handlers are total: everything they read from the state exists for every operator (a KeyError
     # raised inside the handler - also inside the arguments of a logging call - would escape instead of the flagged row)
     cfi = prog.functions.get("inference.inference_manager.create_epistemic_state")
@@ -1437,3 +1475,78 @@ def cache_readonly(rep, ex: Explorer, site, paths, allowed_state_keys=()):
                       extracted=why, required="copy before modifying", function=site)
     if not bad:
         rep.ok("CACHE.readonly", site, "in-place modification", "no preprocessing slot is modified while a query is answered", extracted=f"{n} mutating effects, none on a preprocessing slot")
+
+
+def z3_timeout_type(rep, ex: Explorer):
+    """TIMEOUT.int: z3 accepts only an integer for its `timeout` parameter (a float raises Z3Exception, which is no expiry and
+    escapes the wrappers).  Every `<solver>.set(timeout=E)` / `.set("timeout", E)`: E is classified by a small type walk
+    (int / float / unknown) through constants, arithmetic, min / max / int() / round(), conditional expressions, local
+    assignments and the return expressions of the called Deadline methods; only a value that can be a float is reported."""
+    prog = ex.prog
+    funcs = [fi for fi in prog.functions.values() if fi.module.startswith("inference")]
+
+    def ret_type(name, depth):
+        tys = set()
+        for fi in funcs:
+            if fi.node.name == name and fi.module.endswith("deadline"):
+                for n in ast.walk(fi.node):
+                    if isinstance(n, ast.Return) and n.value is not None:
+                        tys.add(ty(n.value, fi, depth + 1))
+        if not tys:
+            return "unknown"
+        return "float" if "float" in tys else ("int" if tys == {"int"} else "unknown")
+
+    def ty(e, fi, depth=0):
+        if depth > 6:
+            return "unknown"
+        if isinstance(e, ast.Constant):
+            return "float" if isinstance(e.value, float) else ("int" if isinstance(e.value, int) else "unknown")
+        if isinstance(e, ast.UnaryOp):
+            return ty(e.operand, fi, depth + 1)
+        if isinstance(e, ast.BinOp):
+            if isinstance(e.op, ast.Div):
+                return "float"
+            a, b = ty(e.left, fi, depth + 1), ty(e.right, fi, depth + 1)
+            return "float" if "float" in (a, b) else ("int" if (a, b) == ("int", "int") else "unknown")
+        if isinstance(e, ast.IfExp):
+            a, b = ty(e.body, fi, depth + 1), ty(e.orelse, fi, depth + 1)
+            return "float" if "float" in (a, b) else ("int" if (a, b) == ("int", "int") else "unknown")
+        if isinstance(e, ast.Call):
+            f = e.func
+            nm = f.attr if isinstance(f, ast.Attribute) else (f.id if isinstance(f, ast.Name) else "")
+            if nm == "int" or (nm == "round" and len(e.args) == 1) or nm in ("len", "floor", "ceil"):
+                return "int"
+            if nm == "float":
+                return "float"
+            if nm in ("max", "min") and e.args and not e.keywords:
+                ts = [ty(a, fi, depth + 1) for a in e.args]
+                return "float" if "float" in ts else ("int" if all(t == "int" for t in ts) else "unknown")
+            if isinstance(f, ast.Attribute):
+                return ret_type(nm, depth)
+            return "unknown"
+        if isinstance(e, ast.Name):
+            tys = set()
+            for n in ast.walk(fi.node):
+                if isinstance(n, ast.Assign) and any(isinstance(t, ast.Name) and t.id == e.id for t in n.targets):
+                    tys.add(ty(n.value, fi, depth + 1))
+            if not tys:
+                return "unknown"
+            return "float" if "float" in tys else ("int" if tys == {"int"} else "unknown")
+        return "unknown"
+
+    n = 0
+    for fi in funcs:
+        for c in ast.walk(fi.node):
+            if not (isinstance(c, ast.Call) and isinstance(c.func, ast.Attribute) and c.func.attr == "set"):
+                continue
+            arg = next((k.value for k in c.keywords if k.arg == "timeout"), None)
+            if arg is None and len(c.args) == 2 and isinstance(c.args[0], ast.Constant) and c.args[0].value == "timeout":
+                arg = c.args[1]
+            if arg is None:
+                continue
+            n += 1
+            t = ty(arg, fi)
+            where = f"{fi.path}:{fi.qualname[len(fi.module) + 1:]}:{c.lineno}"
+            rep.check(t != "float", "TIMEOUT.int", where, "timeout parameter", "the timeout handed to z3 is an integer number of milliseconds (z3 rejects a float with an exception that is not an expiry)",
+                      extracted=f"`{ast.unparse(arg)[:80]}` can be a float" if t == "float" else f"`{ast.unparse(arg)[:80]}`: {t}", required="int", function=f"{fi.path}:{fi.qualname[len(fi.module) + 1:]}")
+    rep.floor("z3 timeout parameters set", n, 2)
